@@ -14,6 +14,26 @@ impl DetectProp for C06 {
         if idx % 10 == 9 {
             return declaration_at_zone_edge(rng);
         }
+        if idx % 10 == 4 {
+            // a keyword-like fragment with a label that names nothing, before the real declaration
+            let first = *rng.pick(&["Content-Transfer-Encoding: 7bit\n", "Content-Encoding: gzip\n", "Accept-Encoding: br\n", "<?xml version=\"1.0\" encoding=\"utf-57\"?>\n", "transfer-coding = chunked\n"]);
+            let label = *rng.pick(&["windows-1252", "koi8-r", "iso-8859-2", "utf-8", "windows-1251", "latin1"]);
+            let second = match rng.below(3) {
+                0 => format!("Content-Type: text/plain; charset={}\n\n", label),
+                1 => format!("# -*- coding: {} -*-\n", label),
+                _ => format!("<meta charset=\"{}\">\n", label),
+            };
+            let body = b"Plain words of body text follow the headers, nothing special in them at all.\n";
+            let mut b = first.as_bytes().to_vec();
+            b.extend_from_slice(second.as_bytes());
+            for _ in 0..rng.range(1, 6) {
+                b.extend_from_slice(body);
+            }
+            c.bytes = b;
+            c.sett = Sett::default();
+            c.tag = format!("two-declarations:{}", label);
+            return c;
+        }
         match idx % 6 {
             0 | 1 => {
                 // declaration (fitting or contradicting) x BOM x ASCII / UTF-8 body
@@ -85,7 +105,16 @@ impl DetectProp for C06 {
         let canon = |v: &[String]| -> Vec<String> { v.iter().filter_map(|n| iana_name(n).map(|x| x.to_string())).collect() };
         let (incl, excl) = (canon(&s.incl), canon(&s.excl));
         let sig = MARKS.iter().find(|(_, mk)| case.bytes.starts_with(mk)).map(|(e, _)| e.to_string());
-        let declared = if s.pre { vh::any_specified_encoding(&case.bytes, 4096) } else { None };
+        let declared = if s.pre { independent_declared(&case.bytes, 4096) } else { None };
+        // the crate's scan of the first 4096 bytes against the independent one
+        {
+            let theirs = vh::any_specified_encoding(&case.bytes, 4096);
+            let ours = independent_declared(&case.bytes, 4096);
+            cx.rep.count("oracle:declaration-scan");
+            if theirs != ours {
+                cx.rep.fail("oracle", "C06:declaration-scan-differs", &format!("the content declares {:?} (first label in the 4096-byte zone naming a known encoding) but the scan reports {:?}", ours, theirs), &case.bytes, Some(s), &case.tag);
+            }
+        }
         if declared.is_some() {
             cx.rep.count("oracle:declaration-seen");
         }
